@@ -228,7 +228,9 @@ def run(ctx):
     ctx.violations.sort(key=lambda v: (len(v["case"]["par"]), len(v["case"]["tips"]) + len(v["case"]["ends"]), sum(map(len, v["case"]["par"]))))
     rank, seen = {}, {}
     for v in ctx.violations:
-        sig = (v["classes"][0].split(":")[1], v["mode"].replace("_fp", ""), json.dumps(v["traits"], sort_keys=True))
+        t = v["traits"]
+        sig = ("tip-in-ends" if t["tip_in_ends"] else "first-parent+ends" if t["first_parent"] and t["has_ends"] else
+               v["mode"].replace("_fp", "") + ":" + v["classes"][0].split(":")[1])
         seen[sig] = seen.get(sig, 0) + 1
         rank[id(v)] = seen[sig]
     ctx.violations.sort(key=lambda v: rank[id(v)])
@@ -244,7 +246,7 @@ def run(ctx):
 
 
 def random_part(ctx, binary):
-    nw = 60 if not ctx.thorough else 1500
+    nw = 40 if not ctx.thorough else 1000
     worlds, wq = [], []
     for w in range(nw):
         n = ctx.rng.randint(6, 16)
